@@ -14,7 +14,8 @@ import subprocess
 import tempfile
 from concurrent.futures import ThreadPoolExecutor
 
-from extract import WORK, REPO, CONFIGS
+from extract import work_dir, REPO, CONFIGS
+WORK = work_dir(REPO)
 from lib import CheckerError
 
 PRELUDE = '''#![allow(dead_code, unused_imports)]
